@@ -19,6 +19,7 @@
 //
 // Oracle: a functor handed to an FQ call never starts on the calling thread while that call is in progress.
 #include "mc_harness.h"
+#include "submit_cover.h"
 #include "submit_stacknorm.h"
 #include <dispenso/task_set.h>
 #include <dispenso/thread_pool.h>
@@ -60,7 +61,7 @@ struct State {
     MC_CHECK(started[id].add(1) == 0, "functor %d started twice", id);
     bool dur = in_call[id].get() != 0;
     during[id].set(dur ? 1 : 2);
-    mc::cover(dur ? "started_during_call_elsewhere" : "started_after_call");
+    submit_cover::mark(dur ? "started_during_call_elsewhere" : "started_after_call");
     if (gate) {
       int who = id / 8;
       mc::block_until([&] { return gate_open[who].get() != 0; });
@@ -74,15 +75,15 @@ void note_load(dispenso::ThreadPool& pool, dispenso::TaskSetBase* ts, bool pool_
   long wr = (long)pool.workRemaining_.a_.load(std::memory_order_relaxed);
   long lf = (long)pool.poolLoadFactor_.a_.load(std::memory_order_relaxed);
   long nt = (long)pool.numThreads_.a_.load(std::memory_order_relaxed);
-  if (wr == 0) mc::cover("load_empty");
-  if (wr > 0 && wr <= lf) mc::cover("load_below_pool_factor");
-  if (wr > lf) mc::cover("load_beyond_pool_factor");
-  if (wr > 2 * lf + 1) mc::cover("load_far_beyond_pool_factor");
-  if (pool_thread && wr > nt + nt / 2) mc::cover("load_beyond_pool_recursive_factor");
+  if (wr == 0) submit_cover::mark("load_empty");
+  if (wr > 0 && wr <= lf) submit_cover::mark("load_below_pool_factor");
+  if (wr > lf) submit_cover::mark("load_beyond_pool_factor");
+  if (wr > 2 * lf + 1) submit_cover::mark("load_far_beyond_pool_factor");
+  if (pool_thread && wr > nt + nt / 2) submit_cover::mark("load_beyond_pool_recursive_factor");
   if (ts) {
     long out = (long)ts->outstandingTaskCount_.a_.load(std::memory_order_relaxed);
-    if (out > (long)ts->taskSetLoadFactor_) mc::cover("load_beyond_taskset_factor");
-    if (out > 2 * (long)ts->taskSetLoadFactor_ + 1) mc::cover("load_far_beyond_taskset_factor");
+    if (out > (long)ts->taskSetLoadFactor_) submit_cover::mark("load_beyond_taskset_factor");
+    if (out > 2 * (long)ts->taskSetLoadFactor_ + 1) submit_cover::mark("load_far_beyond_taskset_factor");
   }
 }
 
@@ -96,7 +97,7 @@ void run_on_set(dispenso::ThreadPool& pool, Set& set, State& st, int who, const 
       int id = st.fresh(who, 1);
       set.schedule([&st, id, qname] { st.body(id, qname); }, dispenso::ForceQueuingTag());
       st.done(id, 1);
-      mc::cover(qcover);
+      submit_cover::mark(qcover);
     } else if (op == 'B') {
       int k = prog[++pc] - '0';
       int base = st.fresh(who, k);
@@ -108,7 +109,7 @@ void run_on_set(dispenso::ThreadPool& pool, Set& set, State& st, int who, const 
           },
           dispenso::ForceQueuingTag());
       st.done(base, k);
-      mc::cover(bcover);
+      submit_cover::mark(bcover);
     }
   }
 }
@@ -120,7 +121,7 @@ void run_on_pool(dispenso::ThreadPool& pool, State& st, int who, const std::stri
     int id = st.fresh(who, 1);
     pool.schedule([&st, id] { st.body(id, "ThreadPool::schedule(f, FQ)"); }, dispenso::ForceQueuingTag());
     st.done(id, 1);
-    mc::cover("fq_pool_schedule");
+    submit_cover::mark("fq_pool_schedule");
   }
 }
 
@@ -155,6 +156,7 @@ void caller_main(dispenso::ThreadPool& pool, dispenso::ConcurrentTaskSet* shared
 } // namespace
 
 MC_HARNESS(fq) {
+  submit_cover::reset();
   long n = P("n", 1), mult = P("mult", 1), smult = P("smult", 1);
   std::string api = P.s("api", "pool"), t0 = P.s("t0", "q"), t1 = P.s("t1", ""), who0 = P.s("caller", "ext");
   // api=any / api=sets / caller=any: resolved by mc::choose before any thread exists, so that one run (one process)
@@ -201,7 +203,7 @@ MC_HARNESS(fq) {
       pool.schedule(
           [cp, id] {
             cp->st.body(id, "ThreadPool::schedule(f, FQ) [launcher]");
-            mc::cover("caller_is_pool_thread");
+            submit_cover::mark("caller_is_pool_thread");
             caller_main(cp->pool, cp->shared, cp->st, cp->api, cp->smult, 0, cp->t0, true);
             cp->done.set(1);
           },
@@ -224,4 +226,5 @@ MC_HARNESS(fq) {
       MC_CHECK(st.started[i].get() == 1, "functor %d ran %d times by the end", i, st.started[i].get());
     }
   mc::observe("tasks", total);
+  submit_cover::flush();
 }
